@@ -47,7 +47,11 @@ func InitQuietLog(scratch string) {
 	dir := filepath.Join(scratch, "logconf")
 	os.MkdirAll(dir, 0755)
 	cfg := filepath.Join(dir, "log.yaml")
-	ioutil.WriteFile(cfg, []byte("module: xv\nfilename: xv\nfmt: logfmt\nconsole: false\nlevel: error\n"), 0644)
+	lvl, con := "error", "false"
+	if os.Getenv("XV_LOG") != "" {
+		lvl, con = os.Getenv("XV_LOG"), "true"
+	}
+	ioutil.WriteFile(cfg, []byte("module: xv\nfilename: xv\nfmt: logfmt\nconsole: "+con+"\nlevel: "+lvl+"\n"), 0644)
 	logs.InitLog(cfg, filepath.Join(scratch, "logs"))
 }
 
